@@ -13,7 +13,8 @@ Bad(e) == {<<i, q>> \in (DOMAIN e.steps) \X Queries :
              Out(StateAfter(e.hist, i - 1), q) # "unspecified" /\ e.steps[i][q] # Out(StateAfter(e.hist, i - 1), q)}
 
 Verdict(e) ==
-  IF \E i \in DOMAIN e.hist : ~Enabled(StateAfter(e.hist, i - 1), e.hist[i]) THEN "harness: history not enabled"
+  IF e.fl \notin Flavours THEN "harness: not a flavour of the universe"
+  ELSE IF \E i \in DOMAIN e.hist : ~Enabled(StateAfter(e.hist, i - 1), e.hist[i]) THEN "harness: history not enabled"
   ELSE IF Bad(e) = {} THEN ""
   ELSE LET b == CHOOSE x \in Bad(e) : \A y \in Bad(e) : x[1] <= y[1] IN
        "after " \o ToString(b[1] - 1) \o " edits, " \o b[2] \o " gives " \o e.steps[b[1]][b[2]]
